@@ -1,7 +1,7 @@
 """C01 - Marginal trees are exactly what the node and edge tables say (structural clauses)."""
 from __future__ import annotations
 
-from . import scopes, lib_mem, lib_kind
+from . import scopes, lib_mem, lib_kind, lib_kind4
 from . import lib_tree, lib_guards, lib_order, lib_py, lib_module, lib_variant
 
 LEVEL = "other"
@@ -32,6 +32,8 @@ def run(ctx):
     lib_py.null_index(ctx, py)
     lib_py.unused_params(ctx, py, mods=("trees",), only=ps)
     lib_kind.py_lints(ctx, py, mods=("trees",), only=ps)
+    lib_kind4.root_threshold(ctx, py)
+    lib_kind4.diff_order(ctx, py)
     lib_kind.py_copy_state(ctx, py, [("trees", "Tree")])
     lib_py.kw_forward(ctx, py, mods=("trees",), only=ps)
     lib_variant.sample_walks(ctx, P, tus=("trees",), floor=2)
